@@ -51,6 +51,17 @@ func init() {
 			checkWriteBacks(c, p, R, "C01.R5")
 			checkPublishCtxNotNarrowed(c, p, R, "C01.R4")
 			c.Floor("C01.R4", "dispatch sites", c.Stats["dispatch_sites"], 2)
+			// a publish reaches its dispatch loop: the stages ahead of it (persistence) call no
+			// user callback while a bus lock is held — a callback that publishes (a dead-letter
+			// event from the persistence error handler) would block, and the outer publish
+			// would never invoke its handlers
+			c.Rule("C01.R6", "no user callback under a bus lock ahead of the dispatch loop (re-entrant publish from the persistence stage)")
+			nb := c.Borrow("C01.R6", func(k string) bool {
+				return strings.Contains(k, "outside-lock") || strings.Contains(k, "error-handler-call@") || strings.Contains(k, "obs-pairing")
+			}, func(c2 *Ctx) {
+				runPersist(c2, p, R, map[string]string{"C13.R2": "X", "C20.R1": "X"})
+			})
+			c.Floor("C01.R6", "persistence-stage callbacks checked", nb, 1)
 			c.Assume = append(c.Assume, "reflect.Type values are comparable map keys identifying a type", "delivered values equal published values (not decided)", "interface-typed T: Publish keys by dynamic type, Subscribe by static type (outside the quantifier)")
 		},
 	})
@@ -81,6 +92,18 @@ func init() {
 			checkRegistryEdits(c, p, R, "C02.R2")
 			checkSnapshot(c, p, R, "C02.R3")
 			runDelivery(c, p, R, deliveryRuleOf, map[string]string{"C04.R1": "C02.R3", "C04.R2": "C02.R3"})
+			// "receives that event exactly once": a subscribed handler is skipped only for the
+			// publish context's own cancellation, and a delivery can never block forever on a
+			// sequential lock leaked by an earlier (panicking) delivery
+			c.Rule("C02.R4", "deliveries are not lost for a foreign reason: dispatch gets the publish context; no sequential lock survives a delivery")
+			c.Borrow("C02.R4", func(k string) bool { return strings.Contains(k, "dispatch-context") || strings.Contains(k, "handler-context") }, func(c2 *Ctx) {
+				checkHandlerCtxProvenance(c2, p, R)
+			})
+			if c.Borrow("C02.R4", func(k string) bool { return strings.Contains(k, "sequential-lock-released") || strings.Contains(k, "sequential-unlock") }, func(c2 *Ctx) {
+				runFrames(c2, p, R, map[string]string{"C05.R3": "X"})
+			}) == 0 {
+				c.Discharge("C02.R4", "dispatch-fn/sequential-lock-released", "", "every exit of the dispatch function (return, recovered panic) releases the sequential lock it took")
+			}
 			c.Assume = append(c.Assume, "sync.RWMutex semantics", "an array/slice element read twice on one path is not changed in between")
 			_ = fmt.Sprint
 		},
